@@ -816,6 +816,23 @@ def run_hard(ctx):
         if case.get("family", "").startswith("event:"):
             for e in case["family"][6:].split("+"):
                 ctx.count("simplex_events_judged", e)
+        if bad and not case.get("alt") and not case.get("probe") and "expect" not in case and max([abs(v) for v in case["b"]] + [0]) >= 1e9:
+            # right-hand sides >= 1e9: an LP that is infeasible (or differs) by less than the property's relative tolerance 1e-7 * (1 + |b_i|)
+            # is judged against the LP with every b_i relaxed by that tolerance as well; the answer must obey the property for one of them
+            relaxed = [Fraction(v) + Fraction(1, 10 ** 7) * (1 + abs(Fraction(v))) for v in case["b"]]
+            orc2 = M.oracle_lp([Fraction(v) for v in case["c"]], [[Fraction(a) for a in r] for r in case["A"]], relaxed, case["minimize"])
+            ok2 = M.judge_simplex({**case, "b": [float(v) for v in relaxed]}, out, orc2) is None
+            if not ok2 and orc[0] == "INFEASIBLE" and orc2[0] == "OPTIMAL" and out.get("status") == "OPTIMAL":
+                # infeasible only by less than the tolerance: which optimum is 'the' optimum is not defined within 1e-7 relative;
+                # the point must still satisfy every ORIGINAL row and x >= 0 within the relative tolerance and the objective must be c.x
+                x = out["solution"]
+                rows_ok = all(sum(a * v for a, v in zip(row, x)) <= bi + M.TOL * (1 + abs(bi) + sum(abs(a * v) for a, v in zip(row, x)))
+                              for row, bi in zip(case["A"], case["b"])) and all(v >= -M.TOL for v in x)
+                cx = sum(a * v for a, v in zip(case["c"], x))
+                ok2 = rows_ok and abs(cx - out["objective"]) <= M.TOL * (1 + abs(cx))
+            if ok2:
+                ctx.count("tolerance_ambiguous_huge_rhs", orc[0] + "/" + orc2[0])
+                bad = None
         if bad and (case.get("alt") or case.get("probe")):
             alt = case.get("alt") or _probe_alt(case)
             orc2 = M.oracle_lp(alt["c"], alt["A"], alt["b"], case["minimize"])
